@@ -158,9 +158,18 @@ extern "C" void __asan_on_error()
 {
   if (!g_fastdie)
     return;
+  // ASan names the same overread differently depending on what happens to lie behind the buffer
+  // (heap-buffer-overflow next to a redzone, heap-use-after-free next to a quarantined chunk,
+  // unknown-crash, or a plain SEGV = wild-addr-read when the buffer is the last chunk of a mapped
+  // block).  The failure class must not depend on the allocator's state, so every invalid-access
+  // kind is reported under one name; the raw kind stays in the line for the reader.
   const char *d = __asan_get_report_description();
-  char b[256];
-  int n = snprintf(b, sizeof b, "==%d==ERROR: AddressSanitizer: %s (exploring: full report suppressed, use --replay)\n", (int)getpid(), d ? d : "unknown");
+  const char *raw = d ? d : "unknown";  // no allocation in here
+  bool access = strstr(raw, "overflow") || strstr(raw, "underflow") || strstr(raw, "use-after") || strstr(raw, "wild-") ||
+      strstr(raw, "unknown-crash") || strstr(raw, "SEGV") || strstr(raw, "null-deref") || strstr(raw, "-addr-");
+  char b[320];
+  int n = snprintf(b, sizeof b, "==%d==ERROR: AddressSanitizer: %s (ASan kind: %s; exploring: full report suppressed, use --replay)\n", (int)getpid(),
+      access ? "invalid-memory-access" : raw, raw);
   if (write(2, b, n) < 0) {
   }
   _exit(86);
